@@ -389,6 +389,14 @@ impl Check for C10 {
                         (format!("^[{}-[{}]]$", n, p), x.to_string(), true),
                         (format!("^{}+{}+{}+$", p, n, p), format!("{}{}{}", m, x, m), true),
                     ];
+                    // nested subtraction: A minus (B minus C)
+                    for (q, r) in [("\\d", "5"), ("\\p{Ll}", "\\p{IsBasicLatin}"), ("\\w", "a-f")] {
+                        for c in [m, x, '5', '4', 'a', 'g', '\u{e9}', 'A', ' '] {
+                            if let (Some(in_p), Some(in_q), Some(in_r)) = (single(&p, c), single(q, c), single(&format!("[{}]", r), c)) {
+                                cases.push((format!("^[{}-[{}-[{}]]]$", p, q, r), c.to_string(), in_p && !(in_q && !in_r)));
+                            }
+                        }
+                    }
                     // a negated group with a subtraction: (not A) minus B
                     for q in ["\\p{Lu}", "\\d", "\\p{IsBasicLatin}", "\\s"] {
                         for c in [m, x, 'A', '1', ' ', 'a', '\u{e9}', '\u{10FFFF}'] {
